@@ -2,10 +2,11 @@ SPECIFICATION Spec
 CONSTANTS
   MaxBlocks = 3
   MaxReqs = 1
-  Templates = {"o23", "jmp", "jcc", "call", "ret", "ijmp"}
+  Templates = {"o23", "jmp", "jcc", "call", "ret"}
   PatchKinds = {"plain2", "loop", "fwd", "ret", "jmpsym", "callsym"}
   FnLayouts = {"none", "one", "split"}
   EndSyms = {FALSE}
+  NoSyms = {FALSE}
   AnnModes = {"none"}
   WithProxyDel = TRUE
   CfiLayouts = {"none"}
